@@ -68,7 +68,9 @@ RBadFlags(f) == \/ f < 0 \/ f > 31
                 \/ (Bit(f, R_BYNODESET) /\ Bit(f, R_REMOVE_CPULESS))
                 \/ (~Bit(f, R_BYNODESET) /\ Bit(f, R_REMOVE_MEMLESS))
 
-RestrictRel(e, t, u) ==
+\* Returns the sequence of named checks <<name, holds>> that make up the relation, so that a
+\* rejection can name the clause (RestrictRel is their conjunction).
+RestrictChecks(e, t, u) ==
   LET f == e.flags
       bynode == Bit(f, R_BYNODESET)
       Keep(x) == InR(e.set, x)
@@ -90,12 +92,12 @@ RestrictRel(e, t, u) ==
                  \/ (bynode /\ Bit(f, R_REMOVE_MEMLESS) /\ NewC(RSet(t.tacs)) = {})
   IN
   IF e.ret # 0 THEN
-       /\ e.ret = -1 /\ e.errno = "EINVAL"
-       /\ MustFail \/ MayFail
-       /\ Unchanged(t, u)                                   \* observably unchanged
+       << <<"fail_is_EINVAL", e.ret = -1 /\ e.errno = "EINVAL">>,
+          <<"fail_was_required_or_allowed", MustFail \/ MayFail>>,
+          <<"fail_left_topology_unchanged", Unchanged(t, u)>> >>
+  ELSE IF MustFail THEN << <<"must_fail_but_succeeded", FALSE>> >>
   ELSE
-  /\ ~MustFail
-  /\ LET GU == GpSet(u)
+    LET GU == GpSet(u)
          LeafSurvives(i) == IF O(t, i).type = PU THEN ~DropC(O(t, i).os) ELSE ~DropN(O(t, i).os)
          leaves == {i \in pus \cup numa : LeafSurvives(i)}
          \* objects that still have a PU or a NUMA node at or below them
@@ -103,49 +105,62 @@ RestrictRel(e, t, u) ==
          aliveBefore == UNION {{i} \cup AncSet(t, i) : i \in pus \cup numa}
          MiscAdapt == Bit(f, R_ADAPT_MISC)   IOAdapt == Bit(f, R_ADAPT_IO)
          IsSpecial(i) == O(t, i).type \in IOTypes \cup {MISC}
-         \* root of the special subtree containing the special object i, and its attach point
+         Gone(i) == O(t, i).gp \notin GU
          \* a special (Misc, I/O) object hangs in a special subtree whose root `top` is attached to a
-         \* normal or memory object `a`; TRUE = must survive, FALSE = must be gone, "free" = a was already empty
+         \* normal or memory object `a`
          SpecialFate(i) ==
             LET top == CHOOSE k \in ({i} \cup AncSet(t, i)) : IsSpecial(k) /\ ~IsSpecial(O(t, k).parent)
                 a == O(t, top).parent
             IN IF a \notin aliveBefore THEN "free"
                ELSE IF a \notin alive /\ ((O(t, top).type = MISC /\ ~MiscAdapt) \/ (O(t, top).type \in IOTypes /\ ~IOAdapt))
                     THEN "gone" ELSE "stays"
-         \* merging of a structurally redundant level (KEEP_STRUCTURE), same rule as at load
+         \* merging of a structurally redundant level (KEEP_STRUCTURE, or Die into Package), same rule as at load
          MergeOK(i) ==
-            /\ t.filters[O(t, i).type + 1] = FILTER_KEEP_STRUCTURE
-            /\ \A j \in Pos(t) : (O(t, j).depth = O(t, i).depth /\ O(t, j).type = O(t, i).type) => O(t, j).gp \notin GU
-            /\ \E k \in alive : /\ O(t, k).gp \in GU /\ Related(t, i, k) /\ k # i
+            /\ \/ t.filters[O(t, i).type + 1] = FILTER_KEEP_STRUCTURE
+               \/ O(t, i).type = DIE
+            /\ \A j \in Pos(t) : (O(t, j).depth = O(t, i).depth /\ O(t, j).type = O(t, i).type) => Gone(j)
+            /\ \E k \in alive : /\ ~Gone(k) /\ Related(t, i, k) /\ k # i
                                 /\ NewC(CS(O(t, k))) = NewC(CS(O(t, i)))
-         \* where a survivor whose old parent is p may now hang
-         ParentCands(p) ==
-            LET up == {p} \cup AncSet(t, p)
-                q == CHOOSE x \in up : x \in alive /\ \A y \in up : (y \in alive /\ y # x) => y \in AncSet(t, x)
-            IN IF O(t, q).gp \in GU THEN {O(t, q).gp}
-               ELSE {O(t, k).gp : k \in {x \in alive : /\ O(t, x).gp \in GU /\ Related(t, q, x)
-                                                     /\ NewC(CS(O(t, x))) = NewC(CS(O(t, q)))}}
-     IN
-     /\ GU \subseteq GpSet(t)                                       \* nothing is created
-     /\ WellFormed(u)
-     /\ GpUserdataStable(t, u)
-     /\ [TopLevel(u) EXCEPT !.tacs = <<>>, !.tans = <<>>] = [TopLevel(t) EXCEPT !.tacs = <<>>, !.tans = <<>>]
-     /\ RSet(u.tacs) = NewC(RSet(t.tacs)) /\ RSet(u.tans) = NewN(RSet(t.tans))
-     /\ \A i \in Pos(t) : LET o == O(t, i)  here == o.gp \in GU IN
-          /\ o.type = PU => (here <=> ~DropC(o.os))
-          /\ o.type = NUMANODE => (here <=> ~DropN(o.os))
-          /\ (IsNormal(o) /\ o.type # PU) \/ o.type = MEMCACHE =>
-                /\ (here /\ i \in aliveBefore) => i \in alive          \* nothing left without PU and memory stays
-                /\ ~here => (i \notin alive \/ MergeOK(i))          \* nothing else disappears, except by level merging
-          /\ IsSpecial(i) => LET fate == SpecialFate(i) IN          \* Misc and I/O: dropped or re-attached, never otherwise lost
-                                (fate = "stays" => here) /\ (fate = "gone" => ~here)
-          /\ here => LET v == O(u, PosOf(u, o.gp)) IN
-                /\ Intrinsic(v) = Intrinsic(o)
+         \* where survivor i may now hang: k = position in t of its parent in u
+         ParentOK(i, k) ==
+            LET anc == AncSet(t, i) IN
+            \/ \* the closest surviving ancestor
+               /\ k \in anc
+               /\ \A j \in anc \ ({k} \cup AncSet(t, k)) : Gone(j)
+            \/ \* memory, Misc and I/O children of an object that was merged into a descendant follow it there
+               /\ ~IsNormal(O(t, i))
+               /\ \E q \in anc : /\ Gone(q) /\ q \in alive /\ q \in AncSet(t, k)
+                                  /\ NewC(CS(O(t, k))) = NewC(CS(O(t, q)))
+                                  /\ \A j \in anc \ ({q} \cup AncSet(t, q)) : Gone(j)
+    IN
+    << <<"nothing_created", GU \subseteq GpSet(t)>>,
+       <<"well_formed_after", WellFormed(u)>>,
+       <<"gp_and_userdata_stable", GpUserdataStable(t, u)>>,
+       <<"flags_filters_infos_kept", [TopLevel(u) EXCEPT !.tacs = <<>>, !.tans = <<>>] = [TopLevel(t) EXCEPT !.tacs = <<>>, !.tans = <<>>]>>,
+       <<"allowed_sets_intersected", RSet(u.tacs) = NewC(RSet(t.tacs)) /\ RSet(u.tans) = NewN(RSet(t.tans))>>,
+       <<"PUs_are_exactly_those_kept", \A i \in pus : Gone(i) <=> DropC(O(t, i).os)>>,
+       <<"NUMA_nodes_are_exactly_those_kept", \A i \in numa : Gone(i) <=> DropN(O(t, i).os)>>,
+       <<"nothing_else_disappears_except_by_level_merge",
+            \A i \in Pos(t) : ((IsNormal(O(t, i)) /\ O(t, i).type # PU) \/ O(t, i).type = MEMCACHE) =>
+                               (Gone(i) => (i \notin alive \/ MergeOK(i)))>>,
+       <<"misc_and_io_dropped_or_reattached_never_otherwise_lost",
+            \A i \in Pos(t) : IsSpecial(i) => LET fate == SpecialFate(i) IN
+                                (fate = "stays" => ~Gone(i)) /\ (fate = "gone" => Gone(i))>>,
+       <<"survivors_keep_identity_and_attributes",
+            \A i \in Pos(t) : ~Gone(i) => Intrinsic(O(u, PosOf(u, O(t, i).gp))) = Intrinsic(O(t, i))>>,
+       <<"survivors_sets_are_old_sets_minus_dropped",
+            \A i \in Pos(t) : ~Gone(i) => LET o == O(t, i)  v == O(u, PosOf(u, o.gp)) IN
                 /\ v.hs = o.hs
                 /\ HasSets(o) => /\ CS(v) = NewC(CS(o)) /\ CCS(v) = NewC(CCS(o))
-                                 /\ NS(v) = NewN(NS(o)) /\ CNS(v) = NewN(CNS(o))
-                /\ i # 1 => GpAt(u, v.parent) \in
-                              (IF IsSpecial(i) /\ IsSpecial(o.parent) THEN {O(t, o.parent).gp} ELSE ParentCands(o.parent))
+                                 /\ NS(v) = NewN(NS(o)) /\ CNS(v) = NewN(CNS(o))>>,
+       <<"survivors_hang_below_closest_surviving_ancestor",
+            \A i \in Pos(t) : (~Gone(i) /\ i # 1) =>
+                LET v == O(u, PosOf(u, O(t, i).gp)) IN
+                /\ v.parent # 0
+                /\ ParentOK(i, PosOf(t, O(u, v.parent).gp))>> >>
+
+RestrictRel(e, t, u) == LET c == RestrictChecks(e, t, u) IN \A k \in DOMAIN c : c[k][2]
+RestrictWhy(e, t, u) == LET c == RestrictChecks(e, t, u) IN {c[k][1] : k \in {j \in DOMAIN c : ~c[j][2]}}
 
 (* ------------------------------------------------------------------ *)
 (* hwloc_topology_insert_misc_object                                   *)
@@ -246,7 +261,7 @@ AllowRel(e, t, u) ==
 (* infos, subtype, refresh                                             *)
 (* ------------------------------------------------------------------ *)
 AddInfoRel(e, t, u) ==
-  /\ e.ret = 0
+  /\ e.ret \in {0, 1}              \* hwloc.h documents 0; the inline wrapper returns hwloc_modify_infos()'s positive count
   /\ WellFormed(u) /\ GpUserdataStable(t, u)
   /\ GpSet(u) = GpSet(t) /\ TopLevel(u) = TopLevel(t)
   /\ FrameExcept(t, u, {e.obj})
